@@ -501,7 +501,9 @@ def check_allele_frequencies(post, emp, cx):
     stats = emp.unit_stats()
     if any(len(set(g)) < len(g) for g in emp.counts):
         col.count("repeated_unit_in_genotype")
-    for dosage in (False, True):
+    # repeated calls on ONE posterior object, in an order that depends on the object: every answer must be right, whatever was asked before
+    order = [(False, True, True, False), (True, False, False, True), (True, True, False), (False, False, True)][len(emp.counts) % 4]
+    for dosage in order:
         col.count("allele_frequencies_checked")
         haps, fr, oc = post.allele_frequencies(dosage=dosage)
         hk = [tuple(h) for h in haps.tolist()]
